@@ -112,8 +112,9 @@ template<class P> void run_parser(const char* id, const P& p, const std::vector<
     for (int pass = 0; pass < 2; ++pass) {
       parse_options o2 = opt; if (pass) o2.set_verbose(!opt.verbose);
       ctxlog log; std::stringstream err; std::string r;
+      std::string larger = bytes + " \n\t42 ab"; std::string_view sub(larger.data(), bytes.size());   // a proper sub-view of a larger text
       try {
-        std::optional<std::string> v = pass ? p.context_parse(log, o2, buffers::string_view_buffer(bytes), err) : p.context_parse(log, o2, buffers::string_buffer(std::string(bytes)), err);
+        std::optional<std::string> v = pass ? p.context_parse(log, o2, buffers::string_view_buffer(sub), err) : p.context_parse(log, o2, buffers::string_buffer(std::string(bytes)), err);
         r = v ? "VALUE " + *v : "NONE";
       } catch (const std::exception& e) { r = std::string("THROW ") + e.what(); }
       std::string e = err.str();
